@@ -217,6 +217,50 @@ def sampleSys : Sys :=
   { nsteps := fun i => 2 + i % 2, cellOf := fun i pc => (i + pc) % 2, initVal := fun _ c => 7 + c,
     next := fun i pc l v => l * 31 + v + i + pc, start := fun i => i, out := fun l => l }
 
+/-! ## 4. a scratch file at a fixed path — shared MUTABLE state (not a write-once cell)
+
+`--clang-macro-fallback`: every generation creates `<dir>/.macro_eval.c` and a `.pch` with names
+that do not depend on the generation, reads them back while evaluating macros, and deletes them
+when its context is dropped (clang.rs `FallbackTranslationUnit::new` / `Drop`, ir/context.rs
+`try_ensure_fallback_translation_unit`).  Micro-steps: create (content := own input), read,
+delete. -/
+
+structure FGen where
+  input : Nat
+  pc : Nat
+  /-- what the `read` step saw: `none` = not read yet, `some none` = file missing -/
+  seen : Option (Option Nat)
+  deriving DecidableEq, Repr
+
+def fStep (file : Option Nat) (g : FGen) : Option Nat × FGen :=
+  match g.pc with
+  | 0 => (some g.input, { g with pc := 1 })
+  | 1 => (file, { g with pc := 2, seen := some file })
+  | 2 => (none, { g with pc := 3 })
+  | _ => (file, g)
+
+def fFire (st : Option Nat × List FGen) (k : Nat) : Option Nat × List FGen :=
+  match st.2[k]? with
+  | none => st
+  | some g => let r := fStep st.1 g; (r.1, setNth st.2 k r.2)
+
+def fRunSched : List Nat → Option Nat × List FGen → Option Nat × List FGen
+  | [], st => st
+  | k :: ks, st => fRunSched ks (fFire st k)
+
+def fFresh (i : Nat) : FGen := { input := i, pc := 0, seen := none }
+
+/-- one generation run to completion on its own: create, read, delete -/
+def fRunOne (file : Option Nat) (i : Nat) : Option Nat × FGen :=
+  let a := fStep file (fFresh i)
+  let b := fStep a.1 a.2
+  fStep b.1 b.2
+
+/-- sequential history: what every generation read -/
+def fRunHistory : List Nat → Option Nat → List (Option (Option Nat))
+  | [], _ => []
+  | i :: rest, file => let r := fRunOne file i; r.2.seen :: fRunHistory rest r.1
+
 /-! ## committed classification tables (hand-written; keyed by the site hashes of Generated/Sites) -/
 
 /-- classes of process-wide state / environment sites -/
@@ -237,6 +281,14 @@ inductive StateClass
   | hookOnly
   /-- build script (`build.rs`): compile time, not part of a generation -/
   | buildScript
+  /-- writes an output the caller asked for at the path the caller chose (bindings, depfile,
+      wrapper source, graphviz dump, preprocessed dump) -/
+  | declaredOutput
+  /-- creates / deletes a scratch file whose path does not depend on the generation and whose
+      content does: shared MUTABLE state of all generations running in the same directory —
+      outside the hypothesis of `C11_interleaving_irrelevant` (see §4 and known finding
+      `macro_fallback_shared_scratch_files`) -/
+  | sharedScratchFile
   deriving DecidableEq, Repr
 
 /-- does a state site of this class keep a value across generations of one process? -/
@@ -295,6 +347,20 @@ def stateClasses : List (Nat × StateClass × String) := [
   (1012886420713180733, .envInput, "lib.rs rustfmt_path: RUSTFMT"),
   (66209559025139471, .envInput, "lib.rs env_var(key): reported to callbacks via read_env_var"),
   (66933831845878399, .envInput, "options/mod.rs header_contents: current_dir() prefixes the name of an in-memory header"),
+  (621548159811732698, .buildScript, "build.rs host-target.txt"),
+  (865492049953808878, .sharedScratchFile, "clang.rs FallbackTranslationUnit::new: creates <build dir or .>/.macro_eval.c (fixed name)"),
+  (1029920217957333306, .sharedScratchFile, "clang.rs Drop for FallbackTranslationUnit: removes .macro_eval.c"),
+  (707024884831842029, .sharedScratchFile, "clang.rs Drop for FallbackTranslationUnit: removes the .pch"),
+  (937651750378931466, .sharedScratchFile, "ir/context.rs try_ensure_fallback_translation_unit: saves <dir>/<all but the last header names>-precompile.h.pch (with one header: `-precompile.h.pch` for EVERY input)"),
+  (1138953081690003988, .declaredOutput, "codegen/mod.rs serialize_items: directory of the --wrap-static-fns source"),
+  (244829459033087943, .declaredOutput, "codegen/mod.rs serialize_items: the --wrap-static-fns source at wrap_static_fns_path (default temp_dir/bindgen/extern)"),
+  (733583832033884127, .declaredOutput, "deps.rs DepfileSpec::write: the depfile"),
+  (422942212447525742, .declaredOutput, "ir/dot.rs: --emit-ir-graphviz path"),
+  (1020166412811800764, .declaredOutput, "lib.rs dump_preprocessed_input: __bindgen.c/.cpp wrapper in the cwd (explicit debugging API)"),
+  (381455595391305620, .declaredOutput, "lib.rs dump_preprocessed_input: __bindgen.i/.ii in the cwd (explicit debugging API)"),
+  (1141432568443622269, .declaredOutput, "lib.rs Bindings::write_to_file"),
+  (838780915057964615, .declaredOutput, "options/cli.rs --output"),
+  (514615211141622946, .hookOnly, "verif.rs log file append"),
   (243731835931757708, .hookOnly, "verif.rs thread_local block (log path, unstable pairs)"),
   (797327250632026338, .hookOnly, "verif.rs LOG_PATH"),
   (1059810259706482201, .hookOnly, "verif.rs UNSTABLE"),
@@ -320,6 +386,7 @@ def StateClass.name : StateClass → String
   | .immutableConst => "immutableConst" | .writeOnceConst => "writeOnceConst"
   | .writeOnceEnv => "writeOnceEnv" | .envInput => "envInput"
   | .perGenerationCell => "perGenerationCell" | .hookOnly => "hookOnly" | .buildScript => "buildScript"
+  | .declaredOutput => "declaredOutput" | .sharedScratchFile => "sharedScratchFile"
 
 def ConsumerClass.ofName? (s : String) : Option ConsumerClass :=
   [ConsumerClass.collectOrdered, .sortAfter, .anyAll, .findUnique, .insertAll, .forEachIndependent,
